@@ -476,3 +476,6 @@ def run_case(case):
   if case["sub"] == "b":
     return run_b(case, tf)
   return run_c(case, tf)
+
+# (appended: sub-lattices added after the seeded waves; kept out of the original RULE text for readability)
+RULE = RULE + '; a2: data-dependent scales (auto / auto_po2) x bits x integer bits against the independent reference s(x) = x, 11 factors x 4 storage routes x 3 tensor patterns'
